@@ -835,6 +835,8 @@ func init() {
 	for _, d := range []string{
 		`<mjml><mj-head><mj-style>.x { color: red; }</mj-style></mj-head><mj-body><mj-section><mj-column><mj-text align="right">R</mj-text></mj-column></mj-section></mj-body></mjml>`,
 		`<mjml><mj-head><mj-title>Only here</mj-title><mj-preview>Preview only here</mj-preview><mj-breakpoint width="320px"/></mj-head><mj-body width="480px"><mj-section><mj-column><mj-text align="right">R</mj-text></mj-column></mj-section><mj-wrapper><mj-section><mj-group><mj-column><mj-text>g</mj-text></mj-column></mj-group></mj-section></mj-wrapper><mj-hero><mj-text>h</mj-text></mj-hero></mj-body></mjml>`,
+		// no body at all: every path gives the sentinel, whatever was compiled before (head content must not leak either way)
+		`<mjml><mj-head><mj-title>Body-less</mj-title><mj-attributes><mj-all font-family="Oswald"/></mj-attributes></mj-head></mjml>`,
 	} {
 		apiDocs = append(apiDocs, d)
 		apiOkBits += "1"
